@@ -84,7 +84,14 @@ func (rs reclaimsim) Run(c *Case, dir string) *Outcome {
 	used := map[int]map[uint64]bool{}
 	readers := map[int]*bolt.Tx{} // reader slot -> tx
 	readerID := map[int]int{}
-	w := &sim.World{MapOrder: cfg.MapOrder, Order: order}
+	disk := sim.NewDisk(path)
+	disk.PageSize = ps
+	disk.Veto = func(op string, afterMeta bool) bool {
+		// a failing final sync may leave the transaction present (C08's exception, listed finding F6 with readers);
+		// a failing (un)map leaves the DB unusable: neither belongs to this property
+		return (op == "fdatasync" && afterMeta) || op == "mmap" || op == "munmap"
+	}
+	w := &sim.World{MapOrder: cfg.MapOrder, Order: order, Disk: disk}
 	w.OnWrite = func(db *bolt.DB, off int64, n int) {
 		if db.Path() != path {
 			return
@@ -256,6 +263,73 @@ func (rs reclaimsim) Run(c *Case, dir string) *Outcome {
 			}
 			out.probe("rolled-back-delete-bucket", 1)
 		}
+		if !ex.Steady && t.Chance(1, 6) {
+			// a write transaction that modifies the tree (and sometimes deletes a nested paged bucket) and then
+			// fails *physically*: its Update body panics, or an I/O call of its commit fails. Afterwards no page of
+			// an open reader's version may have become reusable and nothing may stay withheld for longer.
+			how := t.Pick(1, 2)
+			if how == 1 {
+				disk.Fired, disk.Calls = "", 0
+				disk.Plan = &sim.FaultPlan{K: t.Intn(8), Kind: []string{"eio", "short", "enospc"}[t.Intn(3)]}
+				disk.Arm(true)
+			}
+			delNested := t.Chance(1, 3)
+			nput := 1 + t.Intn(ex.PerTx)
+			var ferr error
+			func() {
+				defer func() {
+					if r := recover(); r != nil {
+						if r != work.PanicBody {
+							panic(r)
+						}
+						ferr = work.ErrBody
+					}
+				}()
+				ferr = e.DB.Update(func(tx *bolt.Tx) error {
+					b := tx.Bucket([]byte("b"))
+					for j := 0; j < nput; j++ {
+						k := []byte(fmt.Sprintf("key-%05d", t.Intn(ex.Keys)))
+						if err := b.Put(k, work.MkVal(ex.VLen, 7000000+uint32(j))); err != nil {
+							return err
+						}
+					}
+					if delNested {
+						if nb := tx.Bucket([]byte("n")); nb != nil {
+							_ = nb.DeleteBucket([]byte(fmt.Sprintf("child-%d", t.Intn(4))))
+						}
+					}
+					if how == 0 {
+						panic(work.PanicBody)
+					}
+					return nil
+				})
+			}()
+			disk.Arm(false)
+			disk.Plan = nil
+			switch {
+			case how == 0:
+				out.fault("update-body-panics(physical rollback)", 1)
+			case disk.Fired != "":
+				out.fault("commit-io-failure:"+disk.FiredOp, 1)
+				if ferr == nil {
+					fail("swallowed-error", "%s but Update returned nil", disk.Fired)
+				}
+			default:
+				// the plan's call index was not reached: an ordinary commit happened
+				if ferr != nil {
+					fail("update-error", "%v", ferr)
+					break
+				}
+				if p := decode(); p != nil && p.Fatal == "" {
+					prev = p
+					used[int(p.Meta.Txid)] = p.UsedSet()
+				}
+			}
+			if len(readers) > 0 && (how == 0 || disk.Fired != "") {
+				out.fault("physical-rollback-with-readers-open", 1)
+			}
+			disk.Fired = ""
+		}
 		noReaderDuringTx := len(readers) == 0
 		err := e.DB.Update(func(tx *bolt.Tx) error {
 			b := tx.Bucket([]byte("b"))
@@ -405,7 +479,7 @@ func (rs reclaimsim) Shrinks(c *Case) []*Case {
 
 func init() {
 	register(&Info{Prop: "C10", Engine: reclaimsim{}, Level: "exploration", QuickS: 45, ThoroughS: 600,
-		RealStub: "real: all of bbolt (tag verif), real file + mmap; observed: every pwrite (pages of open readers' versions must not be written); oracle inputs come from the independent decoder (page sets per version); simulated: map iteration order / span choice",
-		Rule:     "one evaluation = one seeded overwrite workload of 20-200 write transactions on one bucket with a reader pattern between transactions (none / one long-lived / staggered open+close / bursts closing at once), optional reopenings, both backends, freelist-sync on/off. After every commit made with no reader open, Stats().PendingPageN must not exceed the number of pages of the previous version that the new version no longer uses (computed by dec/); the same bound must hold from the first commit after the last reader closed; no pwrite may touch a page of an open reader's version; for steady single-page-node workloads of >= 50 transactions the high-water mark must stay <= max live pages + 2 x largest per-transaction release + 2 x freelist pages + 8. distinct = distinct (final hwm, live pages, released, pattern, sizes)",
+		RealStub: "real: all of bbolt (tag verif), real file + mmap; injected: I/O errors in some commits (through the I/O hooks); observed: every pwrite (pages of open readers' versions must not be written); oracle inputs come from the independent decoder (page sets per version); simulated: map iteration order / span choice",
+		Rule:     "one evaluation = one seeded overwrite workload of 20-200 write transactions on one bucket with a reader pattern between transactions (none / one long-lived / staggered open+close / bursts closing at once), optional reopenings, abandoned transactions (user Rollback / failing body) and physically rolled-back ones (a panicking Update body; an injected I/O failure - EIO, short write, ENOSPC - at a tape-chosen I/O call of the commit), both backends, freelist-sync on/off. After every commit made with no reader open, Stats().PendingPageN must not exceed the number of pages of the previous version that the new version no longer uses (computed by dec/); the same bound must hold from the first commit after the last reader closed; no pwrite may touch a page of an open reader's version; for steady single-page-node workloads of >= 50 transactions the high-water mark must stay <= max live pages + 2 x largest per-transaction release + 2 x freelist pages + 8. distinct = distinct (final hwm, live pages, released, pattern, sizes)",
 		Assume:   []string{"single task: reader open/close events happen between write transactions (the concurrent form is exercised by the C02 arm)", "the growth bound is only asserted when no multi-page node or multi-page freelist ever appeared (fragmentation could otherwise legitimately force growth)"}})
 }
